@@ -417,7 +417,8 @@ def predicate(ops, out):
             note("subscription counters", f"{where}: global: subs.cur: broker {snap.g.get('subs.cur', 0)}, actual {sum(snap.s.values())}")
     if not found:
         return None
-    return "[" + " | ".join(sorted(found)) + "] " + "; ".join(found[k] for k in sorted(found))[:1500]
+    # the class list fills the first 80 characters (core groups failures by that prefix): one report per combination of classes
+    return ("[" + " | ".join(sorted(found)) + "]").ljust(82) + " " + "; ".join(found[k] for k in sorted(found))[:1500]
 
 def nontrivial(ops, out):
     """some statistics snapshot shows a drop, a non-empty queue, a terminated session, or packets booked under client id """""
@@ -455,7 +456,7 @@ F34_CLASSES = {"per-client QoS 1/2 messages counted under QoS 0", "global in-fli
 
 def rec_f34(info):
     """every defect class named in the reason is one of the F34 facets"""
-    m = re.match(r"\[(.*?)\] ", _why(info))
+    m = re.match(r"\[(.*?)\]", _why(info))
     return bool(m) and set(m.group(1).split(" | ")) <= F34_CLASSES
 
 RECOGNISERS = {"c20_f34_stats": rec_f34}
